@@ -284,8 +284,10 @@ class Translator:
                 raise Undecidable("call of a computed function")
             if name in ("mod", "remainder") and len(e.args) == 2:
                 return apply_fn("mod", [self.tr(e.args[0]), self.tr(e.args[1])])
-            if name in ("array", "asarray", "float", "float64"):
+            if name in ("array", "asarray", "float", "float64") and e.args:
                 return self.tr(e.args[0])
+            if name in ("copy", "astype") and isinstance(e.func, ast.Attribute):
+                return self.tr(e.func.value)
             args = [self.tr(a) for a in e.args]
             return apply_fn(name, args)
         raise Undecidable(f"expression form {type(e).__name__}")
